@@ -200,13 +200,18 @@ def gen_codec_case(rng, cid, tier):
     return Case(cid, [ty, nh, nb, seed, sh], ops, tag="cm-codec-ty%d" % ty)
 
 
-def clear_negative_cells(img, ty):
-    """counters of the signed types are non-negative in the model: keep the sign bit of every complete 8-byte
-    payload cell clear (negative counters are outside the model; see tools/props/C13.py trusted)"""
-    if ty >= 4:
-        for off in range(16 + 7, len(img), 8):
-            img[off] &= 0x7f
-    return img
+M64 = 2**64
+
+
+def type_boundaries(ty, mx):
+    """boundary values of the counter TYPE as the 8-byte cell encodes them (two's complement, sign-extended):
+    T::MIN, T::MIN+1, -1, 0, 1, T::MAX-1, T::MAX (for the unsigned types T::MIN = 0 and "-1" is the all-ones pattern)"""
+    mn = -(mx + 1) if ty >= 4 else 0
+    return [v % M64 for v in (mn, mn + 1, -1, 0, 1, mx - 1, mx)]
+
+
+def is_neg(ty, v):
+    return ty >= 4 and v >= 2**63
 
 
 def py_parse(img, ty, mx, nh, nb, sh):
@@ -222,9 +227,18 @@ def py_parse(img, ty, mx, nh, nb, sh):
     if len(img) < 16 + 8 * n:
         return None
     vals = [int.from_bytes(bytes(img[16 + 8 * i:24 + 8 * i]), "little") for i in range(n)]
-    if any(v > mx for v in vals) or any(v > vals[0] for v in vals[1:]):
-        return None
-    return vals[0], vals[1:]
+    for v in vals:
+        if not (v <= mx or (is_neg(ty, v) and v >= M64 - (mx + 1))):
+            return None                                  # out of the type's range
+    t = vals[0]
+    if is_neg(ty, t):
+        return None                                      # negative total weight
+    for v in vals[1:]:
+        if (M64 - v > t) if is_neg(ty, v) else (v > t):
+            return None                                  # |counter| > total weight
+    if any(is_neg(ty, v) for v in vals[1:]):
+        return None                                      # accepted, negative counters: dropped by the harness (outside the model)
+    return t, vals[1:]
 
 
 def valid_table(rng, nh, nb, mx, hi=1000):
@@ -252,8 +266,10 @@ def gen_malformed_use_case(rng, cid, tier):
         k = rng.randrange(nh * nb)
         def put(i, v):          # cell i (0 = total weight)
             b[16 + 8 * i:24 + 8 * i] = list((v & (2**64 - 1)).to_bytes(8, "little"))
-        if r < 0.2:
+        if r < 0.12:
             put(1 + k, rng.choice([total + 1, mx, min(mx, 2 * total + 1), mx + 1, 2**63 - 1]))
+        elif r < 0.2:
+            put(rng.choice([0, 1 + k]), rng.choice(type_boundaries(ty, mx)))
         elif r < 0.3:
             put(0, rng.choice([0, max(0, max(cells) - 1), 1]))
         elif r < 0.4:
@@ -267,7 +283,6 @@ def gen_malformed_use_case(rng, cid, tier):
         elif r < 0.75:
             b[3] = rng.choice([1, 3, 255]); b = b[:rng.choice([16, len(b)])]
         # else: unmodified valid image
-        b = clear_negative_cells(b, ty)
         ops.append((9, [0] + b))
         st = py_parse(b, ty, mx, nh, nb, sh)
         ops += [(8, [0]), (3, [0])]
@@ -285,6 +300,41 @@ def gen_malformed_use_case(rng, cid, tier):
             ops += [rng.choice([(5, [0]), (6, [0, f64bits(rng.choice([1.0, 0.5]))])]), (3, [0])]
         ops.append((7, [0]))
     return Case(cid, [ty, nh, nb, seed, sh], ops, tag="cm-malformed-use")
+
+
+def gen_boundary_case(rng, cid, ty, mx):
+    """C14: otherwise valid non-empty images with ONE numeric field at a boundary of its type: every boundary value of
+    the counter type (T::MIN, T::MIN+1, -1, 0, 1, T::MAX-1, T::MAX) in a counter cell and in total_weight, for small
+    and for maximal totals; num_buckets / num_hashes / seed hash / preamble / version / family / flags at theirs"""
+    nh = rng.choice([1, 2]); nb = rng.choice([3, 4])
+    seed = 9001; sh = pyref.seed_hash(seed)
+    ops = []
+
+    def emit(b):
+        ops.extend([(9, [0] + b), (8, [0]), (3, [0]), (10, [0, 1]), (3, [1])])
+
+    def image(total, cells, **kw):
+        return header(nh, nb, sh, **kw) + [y for c in [total] + cells for y in (c % M64).to_bytes(8, "little")]
+
+    for base_total in (rng.choice([1, 2, 5]), mx, mx - 1):
+        base_total = max(1, base_total)
+        cells = [rng.randint(0, min(base_total, 3)) for _ in range(nh * nb)]
+        for v in type_boundaries(ty, mx):
+            c2 = list(cells); c2[rng.randrange(nh * nb)] = v
+            emit(image(base_total, c2))                      # a counter at the boundary
+        for v in type_boundaries(ty, mx):
+            emit(image(v, cells))                            # the total weight at the boundary
+    total, cells = valid_table(rng, nh, nb, mx)
+    good = image(total, cells)
+    for off, width, vals in ((8, 4, [0, 1, 2, 3, 2**31 - 1, 2**31, 2**32 - 1]), (12, 1, [0, 1, 127, 128, 255]),
+                             (13, 2, [0, 1, sh - 1, sh + 1, 65535]), (0, 1, [0, 1, 2, 3, 255]), (1, 1, [0, 1, 2, 255]),
+                             (2, 1, [0, 17, 18, 19, 255]), (3, 1, [0, 1, 2, 254, 255])):
+        for v in vals:
+            b = list(good); b[off:off + width] = list((v % 2**(8 * width)).to_bytes(width, "little"))
+            if off == 8 and v * nh * 8 > 2**20:
+                b = b[:16]                                   # a huge announced table on a short input (no payload)
+            emit(b)
+    return Case(cid, [ty, nh, nb, seed, sh], ops, tag="cm-malformed-boundary-ty%d" % ty)
 
 
 def gen_malformed_case(rng, cid, tier):
@@ -315,7 +365,6 @@ def gen_malformed_case(rng, cid, tier):
             b = b + [rng.randrange(256) for _ in range(rng.randrange(20))]
         else:
             b = [rng.randrange(256) for _ in range(rng.randrange(40))]
-        b = clear_negative_cells(b, ty)
         ops.append((9, [0] + b))
         x = rng.randint(-5, 5)
         # a value returned as Ok must be usable: query, update, merge with itself-clone, re-serialize
@@ -506,7 +555,8 @@ def gen(rng, tier, n=None, focus=None):
     if focus == "malformed_use":
         return [gen_malformed_use_case(rng, i, tier) for i in range(n)]
     if focus == "malformed":
-        return [gen_malformed_case(rng, i, tier) for i in range(n)] + [gen_bigalloc_case(rng, n + i, tier) for i in range(6)]
+        return ([gen_malformed_case(rng, i, tier) for i in range(n)] + [gen_bigalloc_case(rng, n + i, tier) for i in range(6)]
+                + [gen_boundary_case(rng, n + 6 + i, ty, mx) for i, (ty, mx) in enumerate(TYPES)])
     return [gen_case(rng, i, tier, focus) for i in range(n)]
 
 
